@@ -545,7 +545,7 @@ spiftool_get_pword(unsigned long index, const spif_charptr_t str)
         for (; isspace(*tmpstr) && *tmpstr; tmpstr++);
     }
 
-    if (*tmpstr == '\"' || *tmpstr == '\'') {
+    if ((*tmpstr == '\"' || *tmpstr == '\'') && *(tmpstr + 1)) {
         tmpstr++;
     }
     if (*tmpstr == '\0') {
